@@ -834,19 +834,65 @@ impl Family for ManyShapes {
     }
 }
 
+/// resultset headers of more columns than 16 bits can count (the column count of a resultset is a
+/// length-encoded integer; only a PREPARE reply is limited to 65535): 65536 and 70000 columns
+struct HugeHeaders;
+impl Family for HugeHeaders {
+    fn name(&self) -> String {
+        "resultset-headers-beyond-65535-columns".into()
+    }
+    fn len(&self) -> u64 {
+        2
+    }
+    fn run(&self, idx: u64, st: &mut Stats) -> Result<(), Violation> {
+        let n = [65_536usize, 70_000][idx as usize];
+        st.nontrivial += 1;
+        st.bump("huge_headers");
+        let cols = mk_cols(n, 5);
+        let conv = Conv::new(vec![q(b"wide"), ping()]);
+        let s = conv.stream();
+        let stream = Arc::new(s.bytes);
+        let mut sim = sim_for(&stream, vec![]);
+        sim.log_ops = false;
+        let c2 = cols.clone();
+        let behave = Box::new(move |_: usize, cb: &Cb| match cb {
+            Cb::Query(_) => Behavior::Prog(Arc::new(vec![WOp::Start(c2.clone()), WOp::Finish])),
+            _ => Behavior::Silent,
+        });
+        let o = run_conn(sim, ConnCfg::new(behave));
+        st.transitions += n as u64;
+        if let ConnResult::Panic(l, m) = &o.res {
+            return Err(Violation::new(panic_key(l, m), format!("{} columns: run_on panicked at {}: {}", n, l, m)));
+        }
+        if !o.res.is_ok() {
+            return Err(Violation::new("result-not-ok", format!("{} columns: run_on returned {}", n, o.res.short())));
+        }
+        let d = decode_all(delivered(&o), &conv, &s.last_seq, 2, false).map_err(|e| Violation::new("reply-decode", format!("a resultset header of {} columns: {}", n, e)))?;
+        match &d.replies[0][..] {
+            [Unit::ResultSet { cols: gc, end: Ok(_), .. }] => check_defs(gc, &cols, &format!("resultset header of {} columns", n)),
+            other => Err(Violation::new("resultset-reply", format!("{} columns: {} unit(s)", n, other.len()))),
+        }
+    }
+    fn describe(&self, idx: u64) -> J {
+        let n = [65_536usize, 70_000][idx as usize];
+        json!({"columns": n})
+    }
+}
+
 pub fn build(quick: bool) -> Check {
     let flags = flag_words();
     let nf = flags.len();
     Check {
         id: "C09",
         level: "model_checking",
-        rule: format!("column descriptors declared through start() and StatementMetaWriter::reply on the real run_on, decoded by refwire and by mysql_common's Column/StmtPacket: every column count 0..{} (and 65535 in thorough) with table names cycling A, tbl_b, A, \"\", multibyte; table/column name lengths {{0,1,250,251,252,65535,65536,70000}}^2 in ASCII and 2-byte UTF-8; lists of 70..4000 definitions totalling 100 KiB..400 KiB; all {} column types x all {} representable flag words; statement ids {{0,1,255,256,65535,65536,2^31,2^32-1}} x (parameters, columns) in {{0,1,2,250,251,1000}}^2. Histories: every sequence of <= 3 (thorough: 4) metadata-bearing exchanges on one connection over 40 events (text and binary resultset headers, chained headers, PREPARE replies reusing an id with other counts) built from 12 column lists that collide (same table+name concatenation split differently; lists differing only in flags, type, order or one name; the empty list); 17..2300 (thorough: ..66000) distinct column lists on one connection (plain, through PREPARE + EXECUTE, behind COM_FIELD_LIST, optionally behind a 5000-byte name), each declared a second time in another order; every sequence of <= 6 (thorough: 7) events over PREPARE (two ids, a re-prepare with another list), long data, EXECUTE answered with the declared or another list, CLOSE, COM_FIELD_LIST and a text resultset. Oracle: count, order, table, name, type, flags, id and both counts equal what was declared; EOF placement per the 4.1 protocol without DEPRECATE_EOF. Non-trivial = beyond the one-byte length class.", 1000, all_types().len(), nf),
+        rule: format!("column descriptors declared through start() and StatementMetaWriter::reply on the real run_on, decoded by refwire and by mysql_common's Column/StmtPacket: every column count 0..{} (and 65535 in thorough; resultset headers of 65536 and 70000 columns) with table names cycling A, tbl_b, A, \"\", multibyte; table/column name lengths {{0,1,250,251,252,65535,65536,70000}}^2 in ASCII and 2-byte UTF-8; lists of 70..4000 definitions totalling 100 KiB..400 KiB; all {} column types x all {} representable flag words; statement ids {{0,1,255,256,65535,65536,2^31,2^32-1}} x (parameters, columns) in {{0,1,2,250,251,1000}}^2. Histories: every sequence of <= 3 (thorough: 4) metadata-bearing exchanges on one connection over 40 events (text and binary resultset headers, chained headers, PREPARE replies reusing an id with other counts) built from 12 column lists that collide (same table+name concatenation split differently; lists differing only in flags, type, order or one name; the empty list); 17..2300 (thorough: ..66000) distinct column lists on one connection (plain, through PREPARE + EXECUTE, behind COM_FIELD_LIST, optionally behind a 5000-byte name), each declared a second time in another order; every sequence of <= 6 (thorough: 7) events over PREPARE (two ids, a re-prepare with another list), long data, EXECUTE answered with the declared or another list, CLOSE, COM_FIELD_LIST and a text resultset. Oracle: count, order, table, name, type, flags, id and both counts equal what was declared; EOF placement per the 4.1 protocol without DEPRECATE_EOF. Non-trivial = beyond the one-byte length class.", 1000, all_types().len(), nf),
         assumptions: vec!["ColumnFlags can only represent its defined bits; all representable words are covered".into()],
         bounds: json!({"max_columns": if quick {1000} else {65535}, "flag_words": nf}),
         exhaustive: true,
         caps_hit: vec![],
         families: vec![
             Box::new(Counts { max: 1000, extra: if quick { vec![] } else { vec![65535] } }),
+            Box::new(HugeHeaders),
             Box::new(Names { lens: vec![0, 1, 250, 251, 252, 65535, 65536, 70000] }),
             Box::new(BulkyLists),
             Box::new(TypesFlags { flags }),
@@ -862,6 +908,6 @@ pub fn build(quick: bool) -> Check {
             Box::new(StmtLifecycles { depth: 6 }),
             Box::new(StmtLifecycles { depth: if quick { 2 } else { 7 } }),
         ],
-        required: vec!["aftermath_recovered", "many_shapes", "metadata_histories", "statement_lifecycle_histories", "more_than_250_columns", "names_longer_than_250", "type_flag_pairs", "wide_statement_ids", "bulky_lists"],
+        required: vec!["aftermath_recovered", "huge_headers", "many_shapes", "metadata_histories", "statement_lifecycle_histories", "more_than_250_columns", "names_longer_than_250", "type_flag_pairs", "wide_statement_ids", "bulky_lists"],
     }
 }
